@@ -13,11 +13,19 @@ import (
 const maxExpressionTokens = 4096
 
 func ExpandAndEvaluate(expr []token, symbols map[string][]token) (int, error) {
+	return expandAndEvaluate(expr, symbols, make(map[string][]token))
+}
+
+// expandAndEvaluate evaluates expr. The values it resolves on the way are kept
+// in resolved, and a later call that is given the same map does not resolve
+// them again: otherwise every FOR count would walk the whole chain of symbols
+// it can reach, and many blocks counted through a long chain would cost the
+// product of the two.
+func expandAndEvaluate(expr []token, all map[string][]token, resolved map[string][]token) (int, error) {
 	// only the symbols the expression can reach matter; resolving all of
 	// them for every FOR count would make the cost of a count grow with
 	// the number of unrelated definitions
-	all := symbols
-	symbols = make(map[string][]token)
+	symbols := make(map[string][]token)
 	var collect func(toks []token)
 	collect = func(toks []token) {
 		for _, tok := range toks {
@@ -25,6 +33,9 @@ func ExpandAndEvaluate(expr []token, symbols map[string][]token) (int, error) {
 				continue
 			}
 			if _, seen := symbols[tok.val]; seen {
+				continue
+			}
+			if _, done := resolved[tok.val]; done {
 				continue
 			}
 			if val, ok := all[tok.val]; ok {
@@ -42,7 +53,7 @@ func ExpandAndEvaluate(expr []token, symbols map[string][]token) (int, error) {
 		return 0, fmt.Errorf("symbol graph contains cycles: %s", key)
 	}
 
-	resolved, err := expandExpressions(symbols, graph)
+	err := expandExpressionsInto(symbols, graph, resolved)
 	if err != nil {
 		return 0, err
 	}
@@ -119,7 +130,16 @@ func expandValue(key string, values, resolved map[string][]token, graph map[stri
 
 func expandExpressions(values map[string][]token, graph map[string][]string) (map[string][]token, error) {
 	resolved := make(map[string][]token)
+	err := expandExpressionsInto(values, graph, resolved)
+	if err != nil {
+		return nil, err
+	}
+	return resolved, nil
+}
 
+// expandExpressionsInto resolves values and adds them to resolved, which may
+// already hold the resolved values of other symbols
+func expandExpressionsInto(values map[string][]token, graph map[string][]string, resolved map[string][]token) error {
 	// in sorted order, so that the same input always reports the same error
 	for _, key := range sortedKeys(values) {
 		_, ok := resolved[key]
@@ -128,11 +148,11 @@ func expandExpressions(values map[string][]token, graph map[string][]string) (ma
 		}
 		expanded, err := expandValue(key, values, resolved, graph)
 		if err != nil {
-			return nil, err
+			return err
 		}
 		resolved[key] = expanded
 	}
-	return resolved, nil
+	return nil
 }
 
 func combineSigns(expr []token) []token {
